@@ -21,6 +21,10 @@ pub struct Inner {
     pub reads: usize,
     /// sizes of the buffers offered by the reader on each read
     pub offered: Vec<usize>,
+    /// number of bytes handed over on each read
+    pub delivered: Vec<usize>,
+    /// how often EOF has been reported; a reader that keeps reading after EOF is spinning
+    pub eof_polls: usize,
 }
 
 #[derive(Clone, Default)]
@@ -70,6 +74,7 @@ impl AsyncRead for Wire {
         if let Some(mut c) = g.inbound.pop_front() {
             g.offered.push(buf.remaining());
             let n = c.len().min(buf.remaining());
+            g.delivered.push(n);
             buf.put_slice(&c[..n]);
             if n < c.len() {
                 let rest = c.split_off(n);
@@ -79,7 +84,14 @@ impl AsyncRead for Wire {
             Poll::Ready(Ok(()))
         } else {
             match g.at_end {
-                Some(Ok(())) => Poll::Ready(Ok(())),
+                Some(Ok(())) => {
+                    g.eof_polls += 1;
+                    if g.eof_polls > 100_000 {
+                        drop(g);
+                        std::panic::panic_any("SPIN");
+                    }
+                    Poll::Ready(Ok(()))
+                }
                 Some(Err(kind)) => Poll::Ready(Err(kind.into())),
                 None => {
                     g.waker = Some(cx.waker().clone());
